@@ -385,16 +385,24 @@ Definition find_match (text target : str) (orc : list fm) : fm * list fm :=
   | None => match orc with a :: r => (a, r) | [] => (None, []) end
   end.
 
-(* raw-view match, then the accepted-view fallback (the accepted-view map is built once and cached) *)
+(* raw-view match; when it is not exact, an exact accepted-view match wins (fix D44), then the raw-view approximate
+   answer, then the accepted-view approximate answer (the accepted-view map is built once and cached) *)
 Definition locate (s : est) (target : str) (orc : list fm) : fm * bool * est * list fm :=
-  let '(m1, orc1) := find_match (map_text (s_raw s)) target orc in
-  match m1 with
-  | Some x => (Some x, false, s, orc1)
+  match find_sub target (map_text (s_raw s)) 0 with
+  | Some i => (Some (i, length target), false, s, orc)
   | None =>
+    let '(m1, orc1) := match orc with a :: r => (a, r) | [] => (None, []) end in
     let cmc := match s_clean s with Some _ => s_cmc s | None => d_comments (e_doc (s_eng s)) end in
     let cm := match s_clean s with Some c => c | None => build_map true cmc (e_doc (s_eng s)) end in
     let s' := {| s_eng := s_eng s; s_raw := s_raw s; s_clean := Some cm; s_cm0 := s_cm0 s; s_cmc := cmc |} in
-    let '(m2, orc') := find_match (map_text cm) target orc1 in (m2, true, s', orc')
+    match find_sub target (map_text cm) 0 with
+    | Some i => (Some (i, length target), true, s', orc1)
+    | None =>
+      match m1 with
+      | Some x => (Some x, false, s', orc1)
+      | None => let '(m2, orc') := find_match (map_text cm) target orc1 in (m2, true, s', orc')
+      end
+    end
   end.
 Definition apply_located (s1 : est) (use_clean : bool) (st ml : nat) (new comment : str) : est * outcome :=
   let sp := if use_clean then match s_clean s1 with Some c => c | None => [] end else s_raw s1 in
